@@ -1123,6 +1123,86 @@ def fam_fixed(case):
 
 
 # ---------------------------------------------------------------------------
+# gridded input: [time, lat, lon] and [time, level, lat, lon] arrays are the
+# documented alternative to [time, index]; node k is grid point k in row-major
+# order (what data.reshape(T, -1) gives and the compiled class does)
+
+GRID_SHAPES = [(2, 3), (3, 2), (1, 6), (6, 1), (1, 2, 3), (2, 1, 3),
+               (3, 2, 1), (2, 2), (2, 2, 2)]
+
+
+def gridded_data(T, N):
+    t = np.arange(T)[:, None]
+    k = np.arange(N)[None, :]
+    return (np.sin(0.37 * t * (k + 1) + 0.9 * k) +
+            0.25 * ((t * (2 * k + 3) + k * k) % 7) +
+            0.5 * np.roll(np.cos(0.21 * t * (k + 2)), k.ravel().max(), 0))
+
+
+def fam_gridded(case):
+    T, shape = case[0], tuple(case[1])
+    N = int(np.prod(shape))
+    flat = gridded_data(T, N)
+    grid = flat.reshape((T,) + shape)
+    acc = Acc()
+    ref0 = np.corrcoef(flat.T)
+    acc.sig.append(shape)
+    for cname, mk in (("CouplingAnalysis", _CA),
+                      ("CouplingAnalysisPurePython",
+                       lambda d: _PP(d, False))):
+        try:
+            a, b = mk(grid), mk(flat)
+        except Exception as e:   # noqa
+            acc.v("%s.__init__:raises:gridded" % cname, repr(e), repr(e),
+                  "object")
+            continue
+        for tau_max in (0, 2):
+            for lag_mode in ("all", "max") + (
+                    ("sum",) if cname.endswith("Python") else ()):
+                ga = _call(a.cross_correlation, tau_max=tau_max,
+                           lag_mode=lag_mode)
+                gb = _call(b.cross_correlation, tau_max=tau_max,
+                           lag_mode=lag_mode)
+                acc.ev += 2
+                if ga[0] != gb[0] or (ga[0] == "ok" and not _same_nested(
+                        ga[1], gb[1])):
+                    acc.v("%s.cross_correlation:gridded-input!=flat:%s" % (
+                        cname, lag_mode), "input of shape %s vs its "
+                        "row-major reshape to (T, N)" % ((T,) + shape,),
+                        ga[1], gb[1])
+        ga = _call(a.mutual_information, tau_max=1, bins=2, lag_mode="all")
+        gb = _call(b.mutual_information, tau_max=1, bins=2, lag_mode="all")
+        acc.ev += 2
+        if ga[0] != gb[0] or (ga[0] == "ok" and not _same_nested(ga[1],
+                                                                  gb[1])):
+            acc.v("%s.mutual_information:gridded-input!=flat" % cname,
+                  "input of shape %s vs its row-major reshape" % (
+                      (T,) + shape,), ga[1], gb[1])
+        # independent oracle at lag 0
+        g0 = _call(a.cross_correlation, tau_max=0, lag_mode="all")
+        acc.ev += 1
+        if g0[0] == "ok":
+            G = np.asarray(g0[1], float)
+            G = G[:, :, 0] if cname == "CouplingAnalysis" else G[0]
+            off = ~np.eye(N, dtype=bool)
+            if G.shape != ref0.shape or not np.allclose(G[off], ref0[off],
+                                                        **TOL):
+                acc.v("%s.cross_correlation:value:gridded" % cname,
+                      "zero-lag correlation of grid points in row-major "
+                      "order vs numpy.corrcoef", G, ref0)
+    return acc.result()
+
+
+def _same_nested(x, y):
+    if isinstance(x, (tuple, list)) and isinstance(y, (tuple, list)) and \
+            not isinstance(x, np.ndarray):
+        return len(x) == len(y) and all(_same_nested(u, v)
+                                        for u, v in zip(x, y))
+    x, y = np.asarray(x, float), np.asarray(y, float)
+    return x.shape == y.shape and np.allclose(x, y, equal_nan=True, **TOL)
+
+
+# ---------------------------------------------------------------------------
 # metamorphic relations (library against itself)
 
 AFFINE = [(2.0, 1.0), (0.5, -3.0), (4.0, 0.25)]
@@ -1443,7 +1523,7 @@ def _scale_surrogates(acc, data):
 FAMILIES = {"scale": fam_scale, "coupling": fam_coupling, "purepy": fam_purepy,
             "climate": fam_climate, "partial": fam_partial, "surr": fam_surr,
             "symabs": fam_symabs, "perms": fam_perms, "knn": fam_knn,
-            "fixed": fam_fixed, "meta": fam_meta}
+            "fixed": fam_fixed, "meta": fam_meta, "gridded": fam_gridded}
 
 
 def _arrays(T, N, base):
@@ -1500,6 +1580,10 @@ def run(ctx):
     ids = range(12) if thorough else (0, 1, 2, 7)
     ctx.explore("knn", [(i, k) for i in ids for k in (1, 2, 5)], chunk=1,
                 desc="kNN estimators on fixed data sets")
+    ctx.explore("gridded", [[T, list(sh)] for T in (12, 31)
+                            for sh in GRID_SHAPES], chunk=1,
+                desc="[time, lat, lon] / [time, level, lat, lon] input vs "
+                "its row-major reshape, both classes")
     ctx.explore("fixed", list(range(12)), chunk=1,
                 desc="Gaussian information transfer, climate classes, "
                 "pure Python on the fixed data sets")
